@@ -79,7 +79,7 @@ pub open spec fn line_spec(b: Seq<u8>) -> LineV { first_line(split_nl(b), 0) }
 
 impl Line {
 //@ extract src/distinfo.rs : impl Line fn from_bytes
-//@ rewrite D6.split_nl_bytes D6.split_ascii_ws D1.for_vec_while D6.slice_starts_with_lit D6.osstring_from_vec_line D6.string_from_utf8_slice D6.osstr_from_bytes D6.path_push_osstr D6.slice_ne_lit D6.u64_from_str D6.string_eq_lit D16.bytestr_to_array
+//@ rewrite D6.split_nl_bytes D6.split_ascii_ws D1.for_vec_while D6.slice_starts_with_lit D6.osstring_from_vec_line D6.string_from_utf8_slice D6.osstr_from_bytes D6.path_push_osstr D6.slice_ne_lit D6.u64_from_str D6.string_eq_lit D6.string_ne_lit D16.bytestr_to_array
     fn from_bytes(bytes: &[u8]) -> (r: Line)
         ensures lv(r) == line_spec(bytes@)
     {
